@@ -7,10 +7,12 @@ Property theorems over the model `CalicoVerif.Model.C16` of felix/ipsets (`IPSet
 fail and where) + order hints (Go map iteration orders); every theorem below is for ALL `W`,
 i.e. all start kernels, all in-memory states, all failure plans, all orders.
 
-The convergence clause is proved for a successful `ApplyUpdates` that begins with a full resync
-(`fullResyncRequired`: start of day, restart, or after persistent failures), for every failure plan
-inside that call; what is not proved is the same statement for a call that relies on a view kept
-accurate incrementally (no out-of-band edit since the last resync) — see `level_note`.
+The convergence clause (`ipsets_converge_partial`, `ipsets_converge_no_stale_partial`) is proved for a
+successful `ApplyUpdates` that begins with a full resync (`fullResyncRequired`: start of day, restart, or after
+persistent failures), after any history and for every failure plan inside that call.
+What is missing (hence `_partial`): the same statement for a call that relies on a view kept accurate
+incrementally (no out-of-band edit since the last resync); that case is covered by the convergence oracle on
+the real code and the model correspondence only.
 -/
 namespace CalicoVerif.C16
 
@@ -34,25 +36,12 @@ theorem never_destroy_desired_applyDeletions (w : W) (n : String)
 
 /-- **The invariant** (`Inv`): every set Felix was told about has a main-set name (owned, not a temporary
 name) and a member tracker, the desired sets are those that pass the filter, and the dataplane view and
-the resync queue only hold owned names.  It holds initially and is preserved by EVERY operation: the API
-calls, restart, out-of-band kernel edits, and `ApplyUpdates`/`ApplyDeletions` with any failure plan and
+the resync queue only hold owned names.  It holds after EVERY history from a fresh `IPSets` and any kernel:
+API calls, restart, out-of-band kernel edits, and `ApplyUpdates`/`ApplyDeletions` with any failure plan and
 any map-iteration order. -/
-theorem invariant_initial (c : Cfg) : Inv c ({} : Felix) := inv_init c
-
-theorem invariant_inductive (w : W) (op : Op) (hc : CfgOK w.cfg) (hm : CfgMain w.cfg) (h : Inv w.cfg w.F) :
-    (w.stepOp op).1.cfg = w.cfg ∧ Inv w.cfg (w.stepOp op).1.F :=
-  stepOp_inv w op hc hm h
-
-/-- **foreign_untouched, ApplyUpdates**: for every failure plan, order and start kernel, a set whose name
-Felix does not own is bit-for-bit unchanged by `ApplyUpdates`. -/
-theorem foreign_untouched_applyUpdates (w : W) (hc : CfgOK w.cfg) (h : Inv w.cfg w.F)
-    (x : String) (hx : w.cfg.owns x = false) : w.applyUpdates.1.K.get x = w.K.get x :=
-  (applyUpdates_FU w hc h.1.owned).2.2 x hx
-
-/-- **foreign_untouched, ApplyDeletions**. -/
-theorem foreign_untouched_applyDeletions (w : W) (h : Inv w.cfg w.F)
-    (x : String) (hx : w.cfg.owns x = false) : w.applyDeletions.1.K.get x = w.K.get x :=
-  (applyDeletions_FU w (fun n hn => h.2.dp n ((Map.has_iff_mem_keys _ _).2 hn))).2.2 x hx
+theorem invariant_always (c : Cfg) (hc : CfgOK c) (hm : CfgMain c) (K : Kernel) (ops : List Op) :
+    (({ cfg := c, F := {}, K := K } : W).run ops).cfg = c ∧ Inv c (({ cfg := c, F := {}, K := K } : W).run ops).F :=
+  run_inv ops { cfg := c, F := {}, K := K } hc hm (inv_init c)
 
 /-- **foreign_untouched, whole histories**: starting from a fresh `IPSets` and ANY kernel, after any
 sequence of API calls, restarts, applies (any failure plans, any orders) and out-of-band edits of OTHER
@@ -62,19 +51,26 @@ theorem foreign_untouched (c : Cfg) (hc : CfgOK c) (hm : CfgMain c) (K : Kernel)
     (({ cfg := c, F := {}, K := K } : W).run ops).K.get x = K.get x :=
   run_foreign ops { cfg := c, F := {}, K := K } hc hm (inv_init c) x hx he
 
-/-- **ipsets_converge**: from ANY start kernel (stale temporary sets, stale or wrongly typed main sets,
-foreign sets, unlistable sets), for ANY failure plan (restores failing after any number of lines or at
-start, listings failing with or without partial output, destroys failing) and any map-iteration orders:
-if `ApplyUpdates` — begun with `fullResyncRequired` set, as at start of day, after a restart and after
-persistent failures — returns successfully, then every desired set is in the kernel with exactly the
-desired type and parameters and exactly the desired members; every owned set in the kernel is in
-Felix's view; and the API-level state is untouched. -/
-theorem ipsets_converge (w : W) (hc : CfgOK w.cfg) (h : Inv w.cfg w.F) (hfull : w.F.fullReq = true)
-    (hs : w.applyUpdates.2 = true) (n : String) (dm : Meta) (t : MT)
-    (hd : w.F.desired.get n = some dm) (ht : w.F.members.get n = some t) :
+/-- **ipsets_converge** (partial: calls that begin with a full resync).  After ANY history `ops` from a fresh
+`IPSets` and ANY start kernel (stale temporary sets, stale or wrongly typed main sets, foreign sets,
+unlistable sets), for ANY failure plan of the call (restores failing after any number of lines or at start,
+listings failing with or without partial output, destroys failing) and any map-iteration orders: if
+`ApplyUpdates` — begun with `fullResyncRequired` set, as at start of day, after a restart and after persistent
+failures, and run with any failure plan `plan` and order hints — returns successfully, then every desired set is in the kernel with exactly the
+desired type and parameters and exactly the desired members; every owned set in the kernel is in Felix's view;
+and the API-level state is untouched. -/
+theorem ipsets_converge_partial (c : Cfg) (hc : CfgOK c) (hm : CfgMain c) (K : Kernel) (ops : List Op)
+    (plan : Plan) (hintR : List (List String)) (hintD : List String) :
+    let w : W := { ({ cfg := c, F := {}, K := K } : W).run ops with plan := plan, hintR := hintR, hintD := hintD }
+    w.F.fullReq = true → w.applyUpdates.2 = true →
+    ∀ (n : String) (dm : Meta) (t : MT), w.F.desired.get n = some dm → w.F.members.get n = some t →
     (∃ k, w.applyUpdates.1.K.get n = some k ∧ metaMatches k dm ∧ setEq k.members t.des) ∧
     Cov w.cfg w.applyUpdates.1.F w.applyUpdates.1.K ∧ w.applyUpdates.1.F.desired = w.F.desired := by
-  have post := applyUpdates_converges w hc h.1 hfull hs
+  intro w hfull hs n dm t hd ht
+  obtain ⟨hcfg, h⟩ := run_inv ops { cfg := c, F := {}, K := K } hc hm (inv_init c)
+  have hc' : CfgOK w.cfg := by rw [show w.cfg = c from hcfg]; exact hc
+  have h : Inv w.cfg w.F := by rw [show w.cfg = c from hcfg]; exact h
+  have post := applyUpdates_converges w hc' h.1 hfull hs
   refine ⟨?_, post.cov, post.desired⟩
   have hn : w.F.desired.has n = true := Map.has_of_get hd
   obtain ⟨dm', t', k, e1, e2, e3, e4, e5⟩ := post.exact n hn
@@ -86,15 +82,22 @@ theorem ipsets_converge (w : W) (hc : CfgOK w.cfg) (h : Inv w.cfg w.F) (hfull : 
   subst e1; subst e2
   exact ⟨k, e3, e4, by rw [← hd'']; exact e5⟩
 
-/-- **ipsets_converge, deletions**: after such an `ApplyUpdates`, any number of `ApplyDeletions` calls
-(any destroy failures, any orders) keep every desired set exact, and once nothing is pending deletion
-every Felix-owned set in the kernel is a desired one — no other Felix-owned set remains. -/
-theorem ipsets_converge_no_stale (w : W) (hc : CfgOK w.cfg) (h : Inv w.cfg w.F) (hfull : w.F.fullReq = true)
-    (hs : w.applyUpdates.2 = true) (rounds : List (Plan × List String)) :
+/-- **ipsets_converge, deletions** (partial: as above).  After such an `ApplyUpdates`, any number of
+`ApplyDeletions` calls (any destroy failures, any orders) keep every desired set exact, and once nothing is
+pending deletion every Felix-owned set in the kernel is a desired one — no other Felix-owned set remains. -/
+theorem ipsets_converge_no_stale_partial (c : Cfg) (hc : CfgOK c) (hm : CfgMain c) (K : Kernel) (ops : List Op)
+    (plan : Plan) (hintR : List (List String)) (hintD : List String) (rounds : List (Plan × List String)) :
+    let w : W := { ({ cfg := c, F := {}, K := K } : W).run ops with plan := plan, hintR := hintR, hintD := hintD }
+    w.F.fullReq = true → w.applyUpdates.2 = true →
     let w' := w.applyUpdates.1.delRounds rounds
     (∀ n, w.F.desired.has n = true → Exact w'.F w'.K n) ∧
-    (w'.F.pendingDeletions = [] → ∀ b, w.cfg.owns b = true → w'.K.has b = true → w.F.desired.has b = true) := by
-  have post := applyUpdates_converges w hc h.1 hfull hs
+    (w'.F.pendingDeletions = [] → ∀ b, c.owns b = true → w'.K.has b = true → w.F.desired.has b = true) := by
+  intro w hfull hs
+  obtain ⟨hcfg, h⟩ := run_inv ops { cfg := c, F := {}, K := K } hc hm (inv_init c)
+  have hcfg' : w.cfg = c := hcfg
+  have hc' : CfgOK w.cfg := by rw [hcfg']; exact hc
+  have h : Inv w.cfg w.F := by rw [hcfg']; exact h
+  have post := applyUpdates_converges w hc' h.1 hfull hs
   have had := delRounds_AD rounds w.applyUpdates.1
   refine ⟨?_, ?_⟩
   · intro n hn
@@ -104,7 +107,7 @@ theorem ipsets_converge_no_stale (w : W) (hc : CfgOK w.cfg) (h : Inv w.cfg w.F) 
     have hcov : Cov w.cfg (w.applyUpdates.1.delRounds rounds).F (w.applyUpdates.1.delRounds rounds).K := by
       have := had.cov (by rw [post.cfg]; exact post.cov)
       rw [post.cfg] at this; exact this
-    have := no_stale_owned hcov hdr b hown hk
+    have := no_stale_owned hcov hdr b (by rw [hcfg']; exact hown) hk
     rw [had.pres.1.2.1, post.desired] at this
     exact this
 
@@ -173,8 +176,8 @@ theorem exW_desired : exW.F.desired = [("cali40a", ⟨"hash:ip", 100, 0, 0, fals
 /-- The real configuration satisfies the two configuration hypotheses. -/
 example : CfgMain realCfg := realCfg_main
 
-/-- `exW` satisfies the hypotheses of `ipsets_converge` and of the foreign-untouched theorems: its Felix
-state is reached from the empty one by one API call (so `Inv` holds by `invariant_inductive`), and it is
+/-- `exW` satisfies the hypotheses of `ipsets_converge_partial` (with the one-call history) and of the foreign-untouched theorems: its Felix
+state is reached from the empty one by one API call (so `Inv` holds), and it is
 at start of day (`fullResyncRequired`). -/
 example : Inv exW.cfg exW.F :=
   addOrReplace_inv realCfg_main (inv_init realCfg) "a" ⟨"hash:ip", 100, 0, 0, false, false⟩ ["10.0.0.1"]
@@ -182,7 +185,7 @@ example : exW.F.fullReq = true := by decide
 example : exW.F.desired.get "cali40a" = some ⟨"hash:ip", 100, 0, 0, false, false⟩ := by decide
 example : (exW.F.members.get "cali40a").map (·.des) = some ["10.0.0.1"] := by decide
 
-/- The remaining hypothesis of `ipsets_converge` — `ApplyUpdates` succeeds — is satisfiable: evaluated
+/- The remaining hypothesis of `ipsets_converge_partial` — `ApplyUpdates` succeeds — is satisfiable: evaluated
 by the Lean interpreter (an executable check at build time, not a kernel proof: the kernel cannot unfold
 `List.mergeSort`/`Nat.repr`).  `exW` takes the temp-set-and-swap path and destroys the stale temp set;
 with a restore that dies after 2 lines and a failing first listing it still succeeds (after retries). -/
@@ -190,6 +193,18 @@ with a restore that dies after 2 lines and a failing first listing it still succ
 #guard ({ exW with plan := { restores := [.failAt 2, .ok], names := [true, false] },
                    hintR := [["cali40a"], ["cali40a"]], hintD := ["cali4t0", "cali4t0", "cali4t1"] } : W).applyUpdates.2
 #guard (exW.applyUpdates.1.K.get "cali40a").map (fun k => (k.type, k.members)) == some ("hash:ip", ["10.0.0.1"])
+
+/- The same through a history, as in the statement of `ipsets_converge_partial`: a fresh `IPSets` over `exW`'s
+kernel, one API call, then `ApplyUpdates` with a failure plan. -/
+def exOps : List Op := [Op.add "a" "hash:ip" 100 0 0 ["10.0.0.1"]]
+#guard (({ cfg := realCfg, F := {}, K := exW.K } : W).run exOps).F.fullReq
+#guard ({ ({ cfg := realCfg, F := {}, K := exW.K } : W).run exOps with
+           plan := { restores := [.failAt 2, .ok], names := [true, false] },
+           hintR := [["cali40a"], ["cali40a"]], hintD := ["cali4t0", "cali4t0", "cali4t1"] } : W).applyUpdates.2
+#guard (({ ({ cfg := realCfg, F := {}, K := exW.K } : W).run exOps with
+           plan := { restores := [.failAt 2, .ok], names := [true, false] },
+           hintR := [["cali40a"], ["cali40a"]], hintD := ["cali4t0", "cali4t0", "cali4t1"] } : W).applyUpdates.1.K.get "cali40a").map
+         (fun k => (k.type, k.members)) == some ("hash:ip", ["10.0.0.1"])
 
 /-- `swap_atomic` is not vacuous: a set whose metadata differs from the dataplane's takes the
 temporary-set branch (hypotheses satisfied by a concrete state). -/
